@@ -374,6 +374,7 @@ def handle_crash(prop, p, res, binary, workdir, outdir, seed):
     index, rseed = j
     crash = os.path.join(workdir, "%s-%s-%d.crash.json" % (prop, p["name"], index))
     rf = {"property": prop, "profile": p["name"], "seed": rseed, "index": index, "tape": None, "from_seed": True,
+          "sweep_pos": (index % p["sweep"]) if p.get("sweep") else 0,
           "minimised": False, "note": "crash-class violation: replay regenerates the run from its seed in a child process"}
     if res["rc"] == 3 or "WATCHDOG:" in text:
         c = classify_hang(res.get("dump") or text)
